@@ -117,6 +117,7 @@ static int scenario_xds(Src &s, Report &r, vbi_decoder *dec, std::vector<Ev> &ev
 	unsigned ia = s.pick(6), ib = (ia + 1 + s.pick(5)) % 6;
 	bool with_call = s.chance(1, 2);
 	std::string nameA = NAMES[ia], nameB = NAMES[ib], callA = CALLS[ia], callB = CALLS[ib];
+	if (with_call && (ia + ib) % 4 == 1) nameB = nameA;	// two stations of one network: same name, different call letters
 	r.say("scenario D: XDS network name; stations \"%s\" / \"%s\"%s\n", nameA.c_str(), nameB.c_str(), with_call ? " with call letters" : "");
 	std::string last_name; unsigned run = 0; int announced = -1;	// station announced so far: -1 none, 0 A, 1 B
 	bool witness_cached = vbi_is_cached(dec, 0x100, 0);
@@ -125,8 +126,9 @@ static int scenario_xds(Src &s, Report &r, vbi_decoder *dec, std::vector<Ev> &ev
 	while (rx < nrx && !rc) {
 		unsigned which = s.pick(8); int st; bool oneoff = false;
 		switch (which) { case 0: case 1: case 2: case 3: st = 0; break; case 4: case 5: st = 1; break; default: st = announced < 0 ? 0 : announced; oneoff = true; break; }
-		if (oneoff && (announced < 0 || run < 2 || last_name != (announced ? nameB : nameA))) oneoff = false;	// a deviation is isolated only between identical receptions of the announced station
+		if (oneoff && (announced < 0 || run < 2 || last_name != (with_call ? (announced ? nameB + "|" + callB : nameA + "|" + callA) : (announced ? nameB : nameA)))) oneoff = false;	// a deviation is isolated only between identical receptions of the announced station
 		unsigned len = oneoff ? 1 : 1 + s.pick(5);
+		if (nameA == nameB && !oneoff && len < 2) len = 2;	// (two stations with one name: the library debounces the name, so a switch after a single reception would confirm the name with the new call letters at once; not generated)
 		for (unsigned k = 0; k < len && rx < nrx && !rc; ++k, ++rx) {
 			std::string name = st ? nameB : nameA, call = st ? callB : callA;
 			bool dev_call = false;
@@ -137,7 +139,8 @@ static int scenario_xds(Src &s, Report &r, vbi_decoder *dec, std::vector<Ev> &ev
 			unsigned n_net = 0; for (size_t i = ev0; i < evs.size(); ++i) if (evs[i].type == VBI_EVENT_NETWORK) ++n_net;
 			unsigned exp_net = 0;
 			if (!dev_call) {
-				if (name == last_name) ++run; else { last_name = name; run = 1; }
+				std::string ident = with_call ? name + "|" + call : name;	// what identifies the station: its call letters when it transmits any, else its name
+				if (ident == last_name) ++run; else { last_name = ident; run = 1; }
 				if (run == 2 && !oneoff && st != announced) { exp_net = 1; if (announced >= 0) { witness_cached = false; *nt = true; } announced = st; }
 			}
 			if (oneoff) *nt = true;
@@ -166,7 +169,9 @@ int vf_run_case(Src &s, Report &r) {
 	uint8_t hdr[32]; memset(hdr, 0x20, 32); memcpy(hdr, "ZVBI 100", 8);
 	uint8_t row[40]; memset(row, 0x41, 40);
 	auto frame = [&](std::vector<vbi_sliced> &ls) { vbi_decode(dec, ls.empty() ? nullptr : ls.data(), (int) ls.size(), t); t += 0.04; };
+	int hdr_variant = 0;	// each station shows its own header text (set right after a station change the decoder has followed; its header comparison starts afresh then)
 	auto witness = [&]() {	// transmit page 100 so that the cache holds something a channel switch would drop
+		hdr[3] = (uint8_t) ('A' + hdr_variant % 26);
 		tx::HeaderFlags f; f.c4_erase = true;
 		std::vector<vbi_sliced> ls;
 		auto add = [&](const tx::Packet &p) { vbi_sliced sl; memset(&sl, 0, sizeof sl); sl.id = VBI_SLICED_TELETEXT_B; sl.line = 7 + (unsigned) ls.size(); memcpy(sl.data, p.b, 42); ls.push_back(sl); };
@@ -303,7 +308,7 @@ int vf_run_case(Src &s, Report &r) {
 				if (dev) nt = true;
 				if (rc && k2u) r.sig = "C13:known-to-unknown-station";
 				r.say("  frame %u: %s %04x -> %u NETWORK %u NETWORK_ID\n", f, CN[car], cni, n_net, n_id);
-				if (!rc && !witness_cached && s.chance(1, 3)) { witness(); ++f; witness_cached = vbi_is_cached(dec, 0x100, 0); if (!witness_cached) rc = r.fail("C13:page-not-cacheable-after-switch", "after the station change page 100 cannot be cached"); }
+				if (!rc && !witness_cached && s.chance(1, 3)) { hdr_variant = nuid; witness(); ++f; witness_cached = vbi_is_cached(dec, 0x100, 0); if (!witness_cached) rc = r.fail("C13:page-not-cacheable-after-switch", "after the station change page 100 cannot be cached"); }
 			}
 		}
 	} else if (scen == 1) {
@@ -313,7 +318,7 @@ int vf_run_case(Src &s, Report &r) {
 		unsigned change_at = nfr / 2 + s.pick(nfr / 4 + 1);
 		r.say("scenario B: station %s (id %d) then %s (id %d) at frame %u; carriers%s%s%s\n", A.name, A.id, B.name, B.id, change_at, use[0] ? " VPS" : "", use[1] ? " 8/30-1" : "", use[2] ? " 8/30-2" : "");
 		unsigned net_events_before = 0, net_events_after = 0; bool announced_A = false, announced_B = false, b_confirmed = false;
-		int dev_cooldown[3] = {0, 0, 0};
+		int dev_cooldown[3] = {0, 0, 0}; bool b_witness_sent = false;
 		// A real retune loses frames: in half of the histories the time stamps jump at the change (libzvbi then starts a countdown of 40
 		// frames after which it assumes a channel change on its own; identifying the new station within that time must settle it).
 		// Derived from a choice already made; such histories run at least 46 frames past the change.
@@ -348,6 +353,11 @@ int vf_run_case(Src &s, Report &r) {
 			for (size_t i = ev0; i < evs.size(); ++i) if (evs[i].type == VBI_EVENT_NETWORK_ID && (int) evs[i].net.nuid == A.id) announced_A = true;
 			for (size_t i = ev0; i < evs.size(); ++i) if (evs[i].type == VBI_EVENT_NETWORK_ID && (int) evs[i].net.nuid == B.id) announced_B = true;
 			if (f >= change_at) for (auto &l : lv) if (run[l.car] >= 2 && l.cni == cni_for(B, l.car)) b_confirmed = true;
+			if (announced_A && b_confirmed && announced_B && !b_witness_sent && net_events_after == 1) {	// (only when the decoder has followed a change from an identified station: its header comparison starts afresh then)
+				// the old station's page must be gone by now; from here on page 100 is the new station's
+				if (vbi_is_cached(dec, 0x100, 0)) { rc = r.fail("C13:cache-kept-after-station-change", "frame %u: the witness page of %s is still cached after the change to %s was announced", f, A.name, B.name); break; }
+				hdr_variant = 1; witness(); b_witness_sent = true; r.cls("scenario-B-page-of-the-new-station");
+			}
 			if (f < change_at && announced_A && !vbi_is_cached(dec, 0x100, 0)) {
 				if (net_events_before > 1) { rc = r.fail("C13:cache-cleared-without-station-change", "frame %u: the witness page of station %s vanished although the station did not change", f, A.name); break; }
 				witness();	// cached before the first announcement: transmit again, from now on it must stay
@@ -359,7 +369,7 @@ int vf_run_case(Src &s, Report &r) {
 			bool enough = b_confirmed;	// an identifier of the new station was received twice in a row
 			if (!enough && net_events_after > 1) rc = r.fail("C13:station-change-announced-twice", "%u NETWORK events after the change from %s to %s", net_events_after, A.name, B.name);
 			if (net_events_before > 1) rc = r.fail("C13:network-event-without-change", "%u NETWORK events while station %s kept transmitting (with isolated deviations)", net_events_before, A.name);
-			else if (enough && net_events_after == 1 && vbi_is_cached(dec, 0x100, 0)) rc = r.fail("C13:cache-kept-after-station-change", "the witness page of %s is still cached after the change to %s", A.name, B.name);
+			else if (enough && net_events_after == 1 && !b_witness_sent && vbi_is_cached(dec, 0x100, 0)) rc = r.fail("C13:cache-kept-after-station-change", "the witness page of %s is still cached after the change to %s", A.name, B.name);
 			else if (enough && net_events_after != 1) rc = r.fail(net_events_after ? "C13:station-change-announced-twice" : "C13:station-change-not-announced", "%u NETWORK events for the change from %s to %s", net_events_after, A.name, B.name);
 		}
 	} else {
